@@ -111,6 +111,11 @@ def build(ty, js):
         for f, _ty in p[1]:
             a[f] = fnum(js["__row__"][f])
         return a[0]
+    if k == "PyList":
+        ety = p[1].rsplit(",", 1)[0].strip()
+        return [build(ety, v) for v in js]
+    if k == "Path":
+        return str(js)
     if k == "Func":
         table = {fnum(a): fnum(b) for a, b in js["__func__"].items()}
         dflt = fnum(js.get("default", 0.0))
